@@ -12,9 +12,9 @@ import (
 
 // modTargetInfo: heaps and address predicate of one modifies target.
 type modTargetInfo struct {
-	heaps    []leafHeap
-	paramIdx int
-	direct   bool // target is a leaf field of the struct a parameter points to
+	heaps     []leafHeap
+	paramIdx  int
+	direct    bool // target is a leaf field of the struct a parameter points to
 	rootParam int  // index of the parameter the target expression is rooted in (-1 if none)
 	underRoot bool // every address of the target lies inside the object that parameter points to (x.f, x.f.g)
 	// inTarget(r) for each heap, given the environment
@@ -598,7 +598,7 @@ func (a *Act) callByContract(st *State, callee *ssa.Function, fc *FuncContract, 
 		if fc.CallbackRank != nil || clauseMentions(fc, "tlen") {
 			l0 := st.heap(traceLen, "Int")
 			for h, srt := range u.heapSort {
-				if _, isTrace := traceSorts[h]; !(isTrace || strings.HasPrefix(h, "T_arg_")) {
+				if _, isTrace := traceSorts[h]; !(isTrace || (strings.HasPrefix(h, "T_arg_") || strings.HasPrefix(h, "T_res_"))) {
 					continue
 				}
 				oldH := st.heap(h, srt)
@@ -631,6 +631,9 @@ func (a *Act) callByContract(st *State, callee *ssa.Function, fc *FuncContract, 
 		}
 		if len(ghostNames) > 0 && mentions(cl.Expr, ghostNames) {
 			continue // postconditions over the callee's ghost variables are not visible to callers
+		}
+		if exprMentions(cl.Expr, "targ") || exprMentions(cl.Expr, "tres") {
+			continue // so are postconditions over the callee's own traced calls
 		}
 		st.assume(a.evalClause(qenv, cl))
 	}
@@ -743,6 +746,9 @@ func (e *Engine) VerifyFunc(fn *ssa.Function, fc *FuncContract, smoke bool) (res
 		}
 	}()
 	u.loadAxioms()
+	if fc.MayPanic {
+		u.Warnings = append(u.Warnings, short+": explicit panic statements are documented behaviour ('panics' clause), not proved unreachable")
+	}
 	a := &Act{u: u, fn: fn, fc: fc, vals: map[ssa.Value]Val{}, pureFns: map[ssa.Value]bool{}, stack: []*ssa.Function{fn}}
 	a.top = a
 	a.qn = new(int)
@@ -886,7 +892,7 @@ func (a *Act) frameObligations(out *State, fc *FuncContract) {
 	sort.Strings(names)
 	for _, n := range names {
 		srt := u.heapSort[n]
-		if _, isTrace := traceSorts[n]; isTrace || strings.HasPrefix(n, "G_") || strings.HasPrefix(n, "T_arg_") || n == outHeap || n == outOKHeap {
+		if _, isTrace := traceSorts[n]; isTrace || strings.HasPrefix(n, "G_") || strings.HasPrefix(n, "T_arg_") || strings.HasPrefix(n, "T_res_") || n == outHeap || n == outOKHeap {
 			continue // ghost state
 		}
 		init := u.heapInit(n, srt)
@@ -935,6 +941,16 @@ func (u *Unit) loadAxioms() {
 
 // clauseMentions: some clause of the contract calls the given specification builtin.
 func clauseMentions(fc *FuncContract, fn string) bool {
+	for _, cl := range fc.Clauses {
+		if cl.Expr != nil && exprMentions(cl.Expr, fn) {
+			return true
+		}
+	}
+	return false
+}
+
+// exprMentions: the expression calls the given specification builtin.
+func exprMentions(e0 Expr, fn string) bool {
 	var has func(e Expr) bool
 	has = func(e Expr) bool {
 		switch v := e.(type) {
@@ -973,12 +989,7 @@ func clauseMentions(fc *FuncContract, fn string) bool {
 		}
 		return false
 	}
-	for _, cl := range fc.Clauses {
-		if cl.Expr != nil && has(cl.Expr) {
-			return true
-		}
-	}
-	return false
+	return has(e0)
 }
 
 var outputIntrinsics = map[string]bool{"io.WriteString": true, "fmt.Fprintf": true, "fmt.Fprint": true, "fmt.Fprintln": true,
